@@ -22,7 +22,7 @@ const c12Rule = "small databases (3..12 generated ops incl. tombstones, committe
 
 var c12Profile = &kvh.GenProfile{
 	Weights: map[string]int{
-		"put": 55, "del": 14, "batch": 18, "merge": 4, "reopen": 5, "sync": 1,
+		"put": 55, "del": 14, "batch": 18, "merge": 4, "wipe": 2, "reopen": 5, "sync": 1,
 	},
 	MaxBatchOps: 4,
 	Big:         false,
